@@ -5,7 +5,7 @@
    returned; the C++ samplers are templates over the generator and the harness replays chosen draws).
    Doubles are exact rationals; every model computes in Q without rounding. *)
 From Coq Require Import List Arith QArith Qminmax Qround ZArith Bool.
-From AIT Require Import Base.Qx.
+From AIT Require Import Base.Qx Base.Mdp.
 Import ListNotations.
 Local Open Scope Q_scope.
 
@@ -212,3 +212,16 @@ Definition project_fix (v : vec) : vec :=
   else if Qlt_le_dec 1 sum then map (fun p => fst p * (snd p / sum)) (combine m v)
   else let diff := (1 - sum) / qn (poscount v) in
        map (fun p => fst p * (snd p + diff)) (combine m v).
+
+(* ------------------------------------------------------------------ sampling a model *)
+(* src: src/MDP/Model.cpp:Model::sampleSR — s1 = sampleProbability(S, transitions_[a].row(s), rand_);
+   return (s1, rewards_(s, a)).  [u] is the draw taken from the model's engine.
+   src/MDP/SparseModel.cpp:SparseModel::sampleSR is the same over the sparse row (see sample_sparse_fix). *)
+Definition sample_sr (m : mdp) (s a : nat) (u : Q) : nat * Q :=
+  (sample_dense (trow m s a) u, nthq (row (R m) s) a).
+
+(* src: include/AIToolbox/POMDP/Model.hpp:Model<M>::sampleSOR — [s1, r] = M::sampleSR(s, a);
+   o = sampleProbability(O, observations_[a].row(s1), rand_); return (s1, o, r) *)
+Definition sample_sor (m : pomdp) (s a : nat) (u1 u2 : Q) : nat * nat * Q :=
+  let '(s1, r) := sample_sr (pm m) s a u1 in
+  (s1, sample_dense (orow m s1 a) u2, r).
